@@ -114,6 +114,10 @@ def make_body(rng, st, short, header_pos, bom, with_decl):
         pos = rng.randint(min(len(items), 2), len(items))
         if all(lab != "H" for lab, _ in items[pos - 1:pos + 1]):
             items.insert(pos, ("A", decl))
+    if rng.random() < 0.08 and not decl and header_pos == "none":
+        # minified / generated code: the first line alone is longer than any "header window"
+        n = rng.choice([4094, 4095, 4096, 4097, 5000, 9000])
+        items.insert(0, ("A", f"K{nid()} long first line " + "x" * n))
     # a body must not end in a header/blank-only tail when it has a final-newline flag to test
     if not any(l == "A" for l, _ in items):
         items.append(("A", f"K{nid()} only line"))
